@@ -246,12 +246,24 @@ impl Entities {
             // If overwriting an existing entity, strip stale TC edges from its descendants
             if let Some(old_entity) = self.entities.get(&uid) {
                 let old_ancestors: HashSet<EntityUID> = old_entity.ancestors().cloned().collect();
+                // If `uid` was already touched by this call (it occurs twice in
+                // the batch, or an ancestor of it was upserted earlier in the
+                // batch), the closure of the entity being replaced is not
+                // up to date, so `old_ancestors` may be incomplete. In that
+                // case drop the whole cached closure of its descendants; they
+                // are all in `entities_touched` and get recomputed from their
+                // direct parents below.
+                let closure_is_stale = entities_touched.contains(&uid);
                 for other in self.entities.values_mut() {
                     if other.uid() != &uid && other.is_descendant_of(&uid) {
                         entities_touched.insert(other.uid().clone());
-                        Arc::make_mut(other).remove_indirect_ancestor(&uid);
-                        for ancestor_uid in &old_ancestors {
-                            Arc::make_mut(other).remove_indirect_ancestor(ancestor_uid);
+                        if closure_is_stale {
+                            Arc::make_mut(other).remove_all_indirect_ancestors();
+                        } else {
+                            Arc::make_mut(other).remove_indirect_ancestor(&uid);
+                            for ancestor_uid in &old_ancestors {
+                                Arc::make_mut(other).remove_indirect_ancestor(ancestor_uid);
+                            }
                         }
                     }
                 }
